@@ -43,6 +43,36 @@ CLAIMED = {
    note="trusted: embeddings/projection incl. the mapping of the group-sorted layout back to row order; bounds: window<=3 on the spec, <=5 on the code",
    technique="TLA+ spec GBRolling model-checked with TLC + per-row trace validation (Trace_GBRolling)",
    ref="DESIGN.md section 6/C09"),
+ "C05": dict(
+   text="Each masked call and the same call on the harness-filtered rows are both replayed by TLC through the same deterministic machines (GBCore, GBCumulative, GBRolling, GBEma), in which an unselected row is a stutter and selection is the model-checked array-indexing operator Sel0 (GBSelMC); accepting both yields the pair relation for reductions, transform, cumulative, rolling/shift/diff and EMA.",
+   note="trusted: harness-side construction of the filtered inputs (Python indexing), projections; two open known findings (plain EMA decays across masked rows; positional masks on chunked keys)",
+   technique="TLA+ machines + GBSelMC model-checked with TLC; paired trace validation of masked / filtered real calls",
+   ref="DESIGN.md section 6/C05"),
+ "C06": dict(
+   text="Each call on inputs with null keys and the same call with those rows deleted are replayed by TLC through the same machines, in which a null-key row (null in any component of a multi-key) is a stutter of every per-group state (action properties checked by TLC, with negative configurations); TLC additionally checks that the values shown at null-key rows of row-aligned outputs are one constant per operation/dtype.",
+   note="trusted: harness-side deletion of rows, projections; bounds as in C01/C08/C09/C10/C15",
+   technique="TLC action properties (null-key rows stutter) + paired trace validation with/without null-key rows + marker constancy traces",
+   ref="DESIGN.md section 6/C06"),
+ "C07": dict(
+   text="Every recorded transform=True call (10 reductions incl. var/std, apply(scalar)/median) is replayed by TLC through GBCore: row r must carry the value of r's group computed by the machine (neutral/null for null keys and unselected groups), in input order, with the input's index and container kind; flat and chunked key representations.",
+   note="trusted: projections, the driver's index/container observations; three open known findings (see known_findings.json)",
+   technique="TLA+ spec GBCore model-checked with TLC + trace validation (Trace_GBCore, Trace_GBApply) of transform calls",
+   ref="DESIGN.md section 6/C07"),
+ "C10": dict(
+   text="TLC checks the EMA machine (GBEma: per-group residual/weight/last output/last time in exact integer arithmetic, plain and time-weighted) against the closed-form normalised weighted mean over the row history in every state and that groups are independent; every row of every recorded ema / ema_grouped / GroupBy.ema call, recovered as an exact rational, is one observation of a RowEma action (beta in {0,1/4,1/2,3/4} given as alpha or real halflife; irregular timestamps in ns/us/s, tz-aware, before the epoch).",
+   note="trusted: rational recovery (limit_denominator 2^22, 1e-12 guard), timestamp encoders; per-group length <= 7 so TLC's 32-bit integers hold the exact values",
+   technique="TLA+ spec GBEma model-checked with TLC + per-row exact-rational trace validation (Trace_GBEma)",
+   ref="DESIGN.md section 6/C10"),
+ "C15": dict(
+   text="TLC checks the scan machine (GBSelect: forward/backward scan with per-group counters, unbounded in the intended model, a 2-bit counter as negative configuration) against the rank definition for all key columns within the bounds; every recorded head/tail/nth(keep_input_index=True) call is replayed (one Visit action per row) and must return exactly the picked rows, once, with their index labels and in original order; scaled replays at group sizes straddling 2^7/2^15/2^16 are validated against the definition on run-length encoded keys.",
+   note="trusted: row identity carried by the values; group sizes >= 2^31 out of reach",
+   technique="TLA+ spec GBSelect model-checked with TLC + trace validation (Trace_GBSelect) incl. scaled replays",
+   ref="DESIGN.md section 6/C15"),
+ "C16": dict(
+   text="TLC checks the one-pass variance identity against the two-pass definition for every sequence in the domain (GBStats), validates var/std results as exact rationals through GBCore, validates the sequences handed to user functions and the placement of their order-sensitive checksums for apply/median/quantile (Trace_GBApply), and checks agg/ratio/density against the primitive calls (Trace_GBCompose); the rounding clause is sampled over magnitudes.",
+   note="trusted: rational recovery, recording functions; the rounding bound is judged by harness float arithmetic (outside TLA+); one open known finding",
+   technique="TLA+ spec GBStats model-checked with TLC + trace validation (Trace_GBCore, Trace_GBApply, Trace_GBCompose)",
+   ref="DESIGN.md section 6/C16"),
 }
 REASONS = {}
 props = [json.loads(l) for l in open("/verif/properties.jsonl")]
